@@ -362,7 +362,7 @@ Section Pairing.
   Variable script : list sreply.
   Variable extra : bytes.
   (* every scripted reply is either well-formed or well-formed-but-not-UTF-8 *)
-  Hypothesis Hok : forallb script_ok script = true.
+  Hypothesis Hscript : forallb script_ok script = true.
 
   Definition scr (j : nat) : sreply := nth j script dflt.
   Definition good (j : nat) : bool := wf_reply (scr j).
@@ -370,9 +370,9 @@ Section Pairing.
   Lemma cl_scr_ok : forall j, j < length script ->
     good j = true \/ (good j = false /\ bad_utf8 (scr j) = true).
   Proof.
-    intros j H. rewrite forallb_forall in Hok.
-    specialize (Hok (scr j) (nth_In _ _ H)). unfold script_ok in Hok. unfold good.
-    destruct (wf_reply (scr j)); [left; reflexivity|right; split; [reflexivity|exact Hok]].
+    intros j H. pose proof Hscript as Hs. rewrite forallb_forall in Hs.
+    specialize (Hs (scr j) (nth_In _ _ H)). unfold script_ok in Hs. unfold good.
+    destruct (wf_reply (scr j)); [left; reflexivity|right; split; [reflexivity|exact Hs]].
   Qed.
 
   Definition obj_at (st : cstate) (j : nat) : robj := nth j (s_objs st) dummy_obj.
@@ -1151,4 +1151,544 @@ Section Pairing.
     - unfold custom in H. eapply CM'; [|exact H]. discriminate.
     - unfold custom in H. eapply CM'; [|exact H]. discriminate.
   Qed.
+
+  (* ---------------------------------------------------------------- *)
+  (* sequences of calls, arbitrary (possibly undecodable) replies      *)
+
+  Lemma cl_sorted_snoc : forall l n,
+    StronglySorted lt l -> Forall (fun x => x < n) l -> StronglySorted lt (l ++ [n]).
+  Proof.
+    induction l as [|x l IH]; intros n Hs Hf; cbn.
+    - constructor; constructor.
+    - inversion Hs; subst. inversion Hf; subst. constructor; [apply IH; assumption|].
+      apply Forall_app. split; [assumption|]. constructor; [assumption|constructor].
+  Qed.
+
+  Lemma cl_sorted_app : forall a b m,
+    StronglySorted lt a -> StronglySorted lt b ->
+    Forall (fun i => i < m) a -> Forall (fun i => m <= i) b -> StronglySorted lt (a ++ b).
+  Proof.
+    induction a as [|x a IH]; intros b m Ha Hb Fa Fb; cbn; [exact Hb|].
+    inversion Ha; subst. inversion Fa; subst. constructor; [eapply IH; eassumption|].
+    apply Forall_app. split; [assumption|]. eapply Forall_impl; [|exact Fb]. cbn. intros. lia.
+  Qed.
+
+  Lemma cl_seq_sorted : forall k n, StronglySorted lt (seq n k) /\ Forall (fun i => n <= i < n + k) (seq n k).
+  Proof.
+    induction k as [|k IH]; intros n; cbn; [split; constructor|].
+    destruct (IH (S n)) as [H1 H2]. split.
+    - constructor; [exact H1|]. eapply Forall_impl; [|exact H2]. cbn. intros. lia.
+    - constructor; [lia|]. eapply Forall_impl; [|exact H2]. cbn. intros. lia.
+  Qed.
+
+  Lemma cl_res_gen_ids : forall n n' r, res_gen n n' r ->
+    StronglySorted lt (result_ids r) /\ Forall (fun i => n <= i < n') (result_ids r) /\
+    result_ok_gen r /\ n <= n'.
+  Proof.
+    intros n n' r H. destruct r as [id|l|e]; cbn in *.
+    - destruct H as [-> ->]. split; [repeat constructor|]. split; [repeat constructor; lia|]. split; [exact I|lia].
+    - destruct H as [H ->]. rewrite H. destruct (cl_seq_sorted (length l) n) as [H1 H2]. auto with arith.
+    - destruct e; try contradiction; cbn; repeat split; try constructor; try lia; destruct H; lia.
+  Qed.
+
+  Lemma cl_run_gen : forall ops st f st' results,
+    Inv st f ->
+    StronglySorted lt (map snd (s_rcpttos st)) ->
+    run udigit uspace ops st = (st', results) ->
+    length (s_objs st') <= length script ->
+    exists f', Inv st' f' /\
+      StronglySorted lt (flat_map result_ids results) /\
+      Forall (fun i => length (s_objs st) <= i < length (s_objs st')) (flat_map result_ids results) /\
+      Forall result_ok_gen results /\ s_lmtp st' = s_lmtp st /\
+      length (s_objs st) <= length (s_objs st') /\
+      StronglySorted lt (map snd (s_rcpttos st')) /\
+      Forall (fun p => In p (s_rcpttos st) \/ from_call ops results p) (s_rcpttos st').
+  Proof.
+    induction ops as [|o ops IH]; intros st f st' results I Hsort H Hlen.
+    - cbn in H. inversion H; subst. exists f. cbn.
+      repeat (split; [first [assumption | reflexivity | constructor | lia]|]).
+      apply Forall_forall. intros p Hp. left. exact Hp.
+    - cbn [run] in H. destruct (step udigit uspace o st) as [st1 r] eqn:Es.
+      destruct (run udigit uspace ops st1) as [st2 rs] eqn:Er. inversion H; subst st' results. clear H.
+      pose proof (cl_run_mono ops st1) as Hm. rewrite Er in Hm. cbn [fst] in Hm.
+      assert (Hlen1 : length (s_objs st1) <= length script) by lia.
+      destruct (cl_step_gen o st f st1 r I Es Hlen1) as (f1 & I1 & Hres & Hlm1 & Hrc & _).
+      destruct (cl_res_gen_ids _ _ _ Hres) as (Hs1 & Hb1 & Hok1 & Hle).
+      assert (Hsort1 : StronglySorted lt (map snd (s_rcpttos st1))).
+      { destruct Hrc as [->|[->|(a & _ & _ & ->)]]; [assumption|constructor|].
+        rewrite map_app. cbn [map snd]. apply cl_sorted_snoc; [assumption|].
+        pose proof (I_rcpt _ _ I) as Ir. rewrite Forall_map.
+        eapply Forall_impl; [|exact Ir]. intros p (Hp & _). exact Hp. }
+      destruct (IH st1 f1 st2 rs I1 Hsort1 Er Hlen) as (f2 & I2 & Hs2 & Hb2 & Hok2 & Hlm2 & Hle2 & Hsort2 & Hhist).
+      exists f2. split; [exact I2|]. split.
+      { cbn [flat_map]. eapply (cl_sorted_app _ _ (length (s_objs st1))); try assumption.
+        - eapply Forall_impl; [|exact Hb1]. cbn. intros. lia.
+        - eapply Forall_impl; [|exact Hb2]. cbn. intros. lia. }
+      split.
+      { cbn [flat_map]. apply Forall_app. split; (eapply Forall_impl; [|eassumption]); cbn; intros; lia. }
+      split; [constructor; assumption|]. split; [congruence|]. split; [lia|]. split; [exact Hsort2|].
+      eapply Forall_impl; [|exact Hhist]. intros p [Hin|(k & Hk1 & Hk2)].
+      + destruct Hrc as [E|[E|(a & -> & -> & E)]]; rewrite E in Hin.
+        * left. exact Hin.
+        * destruct Hin.
+        * apply in_app_or in Hin. destruct Hin as [Hin|[<-|[]]]; [left; exact Hin|].
+          right. exists 0. cbn. auto.
+      + right. exists (S k). cbn. auto.
+  Qed.
+
+  Lemma cl_init_inv : forall lmtp exts chunks,
+    Forall nonempty chunks -> (concat chunks = wire script ++ extra)%list ->
+    Inv (init lmtp exts chunks) 0.
+  Proof.
+    intros lmtp exts chunks Hc Hs. constructor.
+    - reflexivity.
+    - reflexivity.
+    - cbn. lia.
+    - lia.
+    - cbn [init s_rbuf s_chunks app]. rewrite Hs. reflexivity.
+    - exact Hc.
+    - intros j Hj. lia.
+    - intros j Hj. cbn in Hj. lia.
+    - constructor.
+  Qed.
+
+  (* C10_pairing_with_bad_replies: the script may contain undecodable replies.  Every
+     such reply costs exactly one call a BadReply and leaves exactly its own slot empty;
+     every other object j < f holds the server's j-th reply, the unread ones are the
+     reply_queue in order, and what is left of the stream starts right behind reply f-1. *)
+  Lemma cl_pairing_gen : forall lmtp exts0 ops chunks st results,
+    Forall nonempty chunks -> (concat chunks = wire script ++ extra)%list ->
+    run udigit uspace ops (init lmtp exts0 chunks) = (st, results) ->
+    length (s_objs st) <= length script ->
+    let n := length (s_objs st) in
+    let f := n - length (s_queue st) in
+    StronglySorted lt (flat_map result_ids results) /\
+    Forall (fun i => i < n) (flat_map result_ids results) /\
+    Forall result_ok_gen results /\
+    s_queue st = seq f (n - f) /\
+    (forall j, j < n ->
+      o_r (nth j (s_objs st) dummy_obj) =
+        if (j <? f) && wf_reply (nth j script dflt)
+        then filled udigit uspace (o_kind (nth j (s_objs st) dummy_obj)) (nth j script dflt)
+        else unfilled (o_kind (nth j (s_objs st) dummy_obj))) /\
+    (s_rbuf st ++ concat (s_chunks st) = wire (skipn f script) ++ extra)%list /\
+    Forall nonempty (s_chunks st) /\ s_dead st = false.
+  Proof.
+    intros lmtp exts0 ops chunks st results Hc Hs Hrun Hlen n f.
+    assert (Hs0 : StronglySorted lt (map snd (s_rcpttos (init lmtp exts0 chunks)))) by constructor.
+    destruct (cl_run_gen ops _ 0 st results (cl_init_inv lmtp exts0 chunks Hc Hs) Hs0 Hrun Hlen)
+      as (f' & I & Hsort & Hb & Hok' & _).
+    assert (Ef : f = f').
+    { subst f n. rewrite (I_queue _ _ I), seq_length. pose proof (I_fle _ _ I). lia. }
+    rewrite Ef. split; [exact Hsort|].
+    split; [eapply Forall_impl; [|exact Hb]; cbn; intros a Ha; fold n in Ha; lia|].
+    split; [exact Hok'|]. split; [exact (I_queue _ _ I)|].
+    split.
+    { intros j Hj. destruct (j <? f') eqn:E; cbn [andb].
+      - apply Nat.ltb_lt in E. exact (I_filled _ _ I j E).
+      - apply Nat.ltb_ge in E. destruct (I_unfilled _ _ I j) as [H _]; [fold n; lia|exact H]. }
+    split; [exact (I_stream _ _ I)|]. split; [exact (I_chunks _ _ I)|exact (I_dead _ _ I)].
+  Qed.
+
+  (* a call that raises before the wire is a no-op, whatever the script; the two
+     exceptions that can be raised after the wire need an undecodable reply *)
+  Lemma cl_raise_gen : forall lmtp exts0 ops chunks st results o st' e,
+    Forall nonempty chunks -> (concat chunks = wire script ++ extra)%list ->
+    run udigit uspace ops (init lmtp exts0 chunks) = (st, results) ->
+    step udigit uspace o st = (st', RExn e) ->
+    length (s_objs st') <= length script ->
+    (e = XEncode \/ e = XNotImpl) /\ st' = st \/
+    (e = XBadReply \/ e = XAttr) /\ (exists j, j < length script /\ wf_reply (nth j script dflt) = false).
+  Proof.
+    intros lmtp exts0 ops chunks st results o st' e Hc Hs Hrun Hstep Hlen.
+    pose proof (cl_step_mono o st) as Hm. rewrite Hstep in Hm. cbn [fst] in Hm.
+    assert (Hlen0 : length (s_objs st) <= length script) by lia.
+    assert (Hs0 : StronglySorted lt (map snd (s_rcpttos (init lmtp exts0 chunks)))) by constructor.
+    destruct (cl_run_gen ops _ 0 st results (cl_init_inv lmtp exts0 chunks Hc Hs) Hs0 Hrun Hlen0)
+      as (f & I & _).
+    destruct (cl_step_gen _ _ _ _ _ I Hstep Hlen) as (f' & _ & Hres & _ & _ & Hno).
+    destruct e; cbn in Hres; try contradiction.
+    - left. auto.
+    - left. auto.
+    - right. split; [auto|]. exact (proj2 Hres).
+    - right. split; [auto|]. exact (proj2 Hres).
+  Qed.
+
+  (* ---------------------------------------------------------------- *)
+  (* scripts without undecodable replies: nothing raises after the wire *)
+  Hypothesis Hwf : forallb wf_reply script = true.
+
+  Lemma cl_all_good : forall j, j < length script -> good j = true.
+  Proof. intros j H. rewrite forallb_forall in Hwf. apply Hwf. apply nth_In. exact H. Qed.
+
+  Lemma cl_no_bad : has_bad -> False.
+  Proof. intros (j & H1 & H2). rewrite (cl_all_good j H1) in H2. discriminate. Qed.
+
+  Definition res_ok (n n' : nat) (res : result) : Prop :=
+    match res with
+    | RObj id => id = n /\ n' = S n
+    | RPairs l => map snd l = seq n (length l) /\ n' = n + length l
+    | RExn XEncode => n' = n
+    | RExn XNotImpl => n' = n
+    | RExn _ => False
+    end.
+
+  Definition rc_step_good (o : op) (st st' : cstate) (res : result) : Prop :=
+    (s_rcpttos st' = s_rcpttos st \/ s_rcpttos st' = []%list \/
+     exists a, o = ORcpt a /\ res = RObj (length (s_objs st)) /\
+               s_rcpttos st' = (s_rcpttos st ++ [(a, length (s_objs st))])%list) /\
+    (forall e, res = RExn e -> st' = st).
+
+  Lemma cl_step_inv : forall o st f st' res,
+    Inv st f ->
+    step udigit uspace o st = (st', res) ->
+    length (s_objs st') <= length script ->
+    exists f', Inv st' f' /\
+               res_ok (length (s_objs st)) (length (s_objs st')) res /\
+               s_lmtp st' = s_lmtp st /\ rc_step_good o st st' res.
+  Proof.
+    intros o st f st' res I H Hlen.
+    destruct (cl_step_gen o st f st' res I H Hlen) as (f' & I1 & Hres & Hlm & Hrc & Hno).
+    exists f'. split; [exact I1|].
+    assert (Hres' : res_ok (length (s_objs st)) (length (s_objs st')) res).
+    { destruct res as [id|l|e]; cbn in *; try assumption.
+      destruct e; try assumption; destruct Hres as [_ Hb]; exact (cl_no_bad Hb). }
+    split; [exact Hres'|]. split; [exact Hlm|]. split; [exact Hrc|].
+    intros e ->. apply Hno. destruct e; cbn in Hres'; try contradiction; auto.
+  Qed.
+
+  Lemma cl_lmtp_data_inv : forall w st f st' res,
+    Inv st f ->
+    lmtp_data udigit uspace w st = (st', res) ->
+    length (s_objs st') <= length script ->
+    exists f',
+      res = RPairs (number (length (s_objs st)) (map fst (accepted (s_rcpttos st)))) /\
+      Inv st' f' /\
+      length (s_objs st') = length (s_objs st) + length (accepted (s_rcpttos st)) /\
+      s_lmtp st' = s_lmtp st /\ s_rcpttos st' = []%list.
+  Proof.
+    intros w st f st' res I H Hlen.
+    destruct (cl_lmtp_data_gen _ _ _ _ _ I H Hlen) as (f' & I1 & _ & Hlm & Hout).
+    exists f'. destruct Hout as [(-> & Hl & Hrc & _)|[(_ & Hb & _)|(_ & Hb & _)]];
+      [auto|destruct (cl_no_bad Hb)|destruct (cl_no_bad Hb)].
+  Qed.
+
+
+  Lemma cl_res_ok_ids : forall n n' r, res_ok n n' r -> result_ids r = seq n (n' - n) /\ result_ok r /\ n <= n'.
+  Proof.
+    intros n n' r H. destruct r as [id|l|e]; cbn in *.
+    - destruct H as [-> ->]. replace (S n - n) with 1 by lia. cbn. auto with arith.
+    - destruct H as [H ->]. replace (n + length l - n) with (length l) by lia. split; [exact H|]. split; [exact I|lia].
+    - destruct e; try contradiction; subst; rewrite Nat.sub_diag; cbn; auto.
+  Qed.
+
+  Lemma cl_run_inv : forall ops st f st' results,
+    Inv st f ->
+    StronglySorted lt (map snd (s_rcpttos st)) ->
+    run udigit uspace ops st = (st', results) ->
+    length (s_objs st') <= length script ->
+    exists f', Inv st' f' /\
+      flat_map result_ids results = seq (length (s_objs st)) (length (s_objs st') - length (s_objs st)) /\
+      Forall result_ok results /\ s_lmtp st' = s_lmtp st /\
+      StronglySorted lt (map snd (s_rcpttos st')) /\
+      Forall (fun p => In p (s_rcpttos st) \/ from_call ops results p) (s_rcpttos st').
+  Proof.
+    induction ops as [|o ops IH]; intros st f st' results I Hsort H Hlen.
+    - cbn in H. inversion H; subst. exists f. rewrite Nat.sub_diag. cbn.
+      repeat (split; [first [assumption | reflexivity | constructor]|]).
+      apply Forall_forall. intros p Hp. left. exact Hp.
+    - cbn [run] in H. destruct (step udigit uspace o st) as [st1 r] eqn:Es.
+      destruct (run udigit uspace ops st1) as [st2 rs] eqn:Er. inversion H; subst st' results. clear H.
+      pose proof (cl_run_mono ops st1) as Hm. rewrite Er in Hm. cbn [fst] in Hm.
+      assert (Hlen1 : length (s_objs st1) <= length script) by lia.
+      destruct (cl_step_inv o st f st1 r I Es Hlen1) as (f1 & I1 & Hres & Hlm1 & Hrc & _).
+      destruct (cl_res_ok_ids _ _ _ Hres) as (Hids & Hok & Hle).
+      assert (Hsort1 : StronglySorted lt (map snd (s_rcpttos st1))).
+      { destruct Hrc as [->|[->|(a & _ & _ & ->)]]; [assumption|constructor|].
+        rewrite map_app. cbn [map snd]. apply cl_sorted_snoc; [assumption|].
+        pose proof (I_rcpt _ _ I) as Ir. rewrite Forall_map.
+        eapply Forall_impl; [|exact Ir]. intros p (Hp & _). exact Hp. }
+      destruct (IH st1 f1 st2 rs I1 Hsort1 Er Hlen) as (f2 & I2 & Hids2 & Hok2 & Hlm2 & Hsort2 & Hhist).
+      exists f2. split; [exact I2|]. split.
+      { cbn [flat_map]. rewrite Hids, Hids2.
+        replace (length (s_objs st2) - length (s_objs st))
+          with ((length (s_objs st1) - length (s_objs st)) + (length (s_objs st2) - length (s_objs st1))) by lia.
+        rewrite seq_app. f_equal. f_equal. lia. }
+      split; [constructor; assumption|]. split; [congruence|]. split; [exact Hsort2|].
+      eapply Forall_impl; [|exact Hhist]. intros p [Hin|(k & Hk1 & Hk2)].
+      + destruct Hrc as [E|[E|(a & -> & -> & E)]]; rewrite E in Hin.
+        * left. exact Hin.
+        * destruct Hin.
+        * apply in_app_or in Hin. destruct Hin as [Hin|[<-|[]]]; [left; exact Hin|].
+          right. exists 0. cbn. auto.
+      + right. exists (S k). cbn. auto.
+  Qed.
+
+
+  (* everything the theorems of prop/C10.v are read off from *)
+  Lemma cl_run_final : forall lmtp exts0 ops chunks st results,
+    Forall nonempty chunks -> (concat chunks = wire script ++ extra)%list ->
+    run udigit uspace ops (init lmtp exts0 chunks) = (st, results) ->
+    length (s_objs st) <= length script ->
+    Inv st (length (s_objs st) - length (s_queue st)) /\
+    flat_map result_ids results = seq 0 (length (s_objs st)) /\
+    Forall result_ok results /\ s_lmtp st = lmtp /\
+    StronglySorted lt (map snd (s_rcpttos st)) /\
+    Forall (from_call ops results) (s_rcpttos st).
+  Proof.
+    intros lmtp exts0 ops chunks st results Hc Hs Hrun Hlen.
+    destruct (cl_run_inv ops _ 0 st results (cl_init_inv lmtp exts0 chunks Hc Hs) ltac:(constructor) Hrun Hlen)
+      as (f & I & Hids & Hok & Hlm & Hsort & Hhist).
+    cbn [init s_objs length s_lmtp s_rcpttos] in *. rewrite Nat.sub_0_r in Hids.
+    assert (Ef : length (s_objs st) - length (s_queue st) = f).
+    { rewrite (I_queue _ _ I), seq_length. pose proof (I_fle _ _ I). lia. }
+    rewrite Ef. repeat (split; [assumption|]).
+    eapply Forall_impl; [|exact Hhist]. intros p [[]|H]. exact H.
+  Qed.
+
+  Lemma cl_pairing : forall lmtp exts0 ops chunks st results,
+    Forall nonempty chunks -> (concat chunks = wire script ++ extra)%list ->
+    run udigit uspace ops (init lmtp exts0 chunks) = (st, results) ->
+    length (s_objs st) <= length script ->
+    let n := length (s_objs st) in
+    let f := n - length (s_queue st) in
+    flat_map result_ids results = seq 0 n /\
+    Forall result_ok results /\
+    s_queue st = seq f (n - f) /\
+    forall j, j < n ->
+      o_r (nth j (s_objs st) dummy_obj) =
+        if j <? f then filled udigit uspace (o_kind (nth j (s_objs st) dummy_obj)) (nth j script dflt)
+        else unfilled (o_kind (nth j (s_objs st) dummy_obj)).
+  Proof.
+    intros lmtp exts0 ops chunks st results Hc Hs Hrun Hlen n f.
+    destruct (cl_run_final _ _ _ _ _ _ Hc Hs Hrun Hlen) as (I & Hids & Hok & _).
+    fold n f in I. repeat (split; [first [assumption | exact (I_queue _ _ I)]|]).
+    intros j Hj. destruct (j <? f) eqn:E.
+    - apply Nat.ltb_lt in E. pose proof (I_filled _ _ I j E) as Hfj. unfold obj_at in Hfj. rewrite Hfj.
+      replace (good j) with true; [reflexivity|]. symmetry. apply cl_all_good.
+      pose proof (I_fscript _ _ I). lia.
+    - apply Nat.ltb_ge in E. destruct (I_unfilled _ _ I j) as [H _]; [fold n; lia|exact H].
+  Qed.
+
+  Lemma cl_no_overread : forall lmtp exts0 ops chunks st results,
+    Forall nonempty chunks -> (concat chunks = wire script ++ extra)%list ->
+    run udigit uspace ops (init lmtp exts0 chunks) = (st, results) ->
+    length (s_objs st) <= length script ->
+    (s_rbuf st ++ concat (s_chunks st) =
+       wire (skipn (length (s_objs st) - length (s_queue st)) script) ++ extra)%list /\
+    Forall nonempty (s_chunks st) /\ s_dead st = false.
+  Proof.
+    intros lmtp exts0 ops chunks st results Hc Hs Hrun Hlen.
+    destruct (cl_run_final _ _ _ _ _ _ Hc Hs Hrun Hlen) as (I & _).
+    split; [exact (I_stream _ _ I)|]. split; [exact (I_chunks _ _ I)|exact (I_dead _ _ I)].
+  Qed.
+
+  Lemma cl_lmtp_pairing : forall exts0 ops chunks st results o st' res,
+    Forall nonempty chunks -> (concat chunks = wire script ++ extra)%list ->
+    run udigit uspace ops (init true exts0 chunks) = (st, results) ->
+    (o = OSendEmpty \/ exists payload, o = OSendData payload) ->
+    step udigit uspace o st = (st', res) ->
+    length (s_objs st') <= length script ->
+    let n := length (s_objs st) in
+    let acc := filter (fun p => class2 (fst (nth (snd p) script dflt))) (s_rcpttos st) in
+    res = RPairs (number n (map fst acc)) /\
+    length (s_objs st') = n + length acc /\
+    s_rcpttos st' = []%list /\
+    StronglySorted lt (map snd (s_rcpttos st)) /\
+    Forall (fun p => from_call ops results p /\ snd p < n /\
+                     o_cmd (nth (snd p) (s_objs st) dummy_obj) = bs "RCPT") (s_rcpttos st).
+  Proof.
+    intros exts0 ops chunks st results o st' res Hc Hs Hrun Ho Hstep Hlen n acc.
+    pose proof (cl_step_mono o st) as Hm. rewrite Hstep in Hm. cbn [fst] in Hm.
+    assert (Hlen0 : length (s_objs st) <= length script) by lia.
+    destruct (cl_run_final _ _ _ _ _ _ Hc Hs Hrun Hlen0) as (I & _ & _ & Hlm & Hsort & Hhist).
+    assert (Hd : exists w, lmtp_data udigit uspace w st = (st', res)).
+    { unfold step in Hstep. rewrite (I_dead _ _ I), Hlm in Hstep.
+      destruct Ho as [->|[payload ->]]; eauto. }
+    destruct Hd as [w Hd].
+    destruct (cl_lmtp_data_inv _ _ _ _ _ I Hd Hlen) as (f' & Hres & _ & Hl & _ & Hrc).
+    split; [exact Hres|]. split; [exact Hl|]. split; [exact Hrc|]. split; [exact Hsort|].
+    pose proof (I_rcpt _ _ I) as Ir. rewrite Forall_forall in *. intros p Hp.
+    destruct (Ir p Hp) as (H1 & _ & H3). auto.
+  Qed.
+
+  (* a call that raises has changed nothing: no reply slot is left without its command *)
+  Lemma cl_raise_is_noop : forall lmtp exts0 ops chunks st results o st' e,
+    Forall nonempty chunks -> (concat chunks = wire script ++ extra)%list ->
+    run udigit uspace ops (init lmtp exts0 chunks) = (st, results) ->
+    step udigit uspace o st = (st', RExn e) ->
+    length (s_objs st') <= length script ->
+    st' = st /\ (e = XEncode \/ e = XNotImpl).
+  Proof.
+    intros lmtp exts0 ops chunks st results o st' e Hc Hs Hrun Hstep Hlen.
+    pose proof (cl_step_mono o st) as Hm. rewrite Hstep in Hm. cbn [fst] in Hm.
+    assert (Hlen0 : length (s_objs st) <= length script) by lia.
+    destruct (cl_run_final _ _ _ _ _ _ Hc Hs Hrun Hlen0) as (I & _).
+    destruct (cl_step_inv _ _ _ _ _ I Hstep Hlen) as (f' & _ & Hres & _ & _ & Hno).
+    split; [apply (Hno e); reflexivity|]. destruct e; cbn in Hres; auto; contradiction.
+  Qed.
 End Pairing.
+
+(* ------------------------------------------------------------------ *)
+(* the theorems of prop/C10.v for scripts of well-formed replies only   *)
+Lemma cl_wf_all_ok : forall script, forallb wf_reply script = true -> forallb script_ok script = true.
+Proof.
+  intros script H. rewrite forallb_forall in *. intros r Hr. unfold script_ok. rewrite (H r Hr). reflexivity.
+Qed.
+
+Lemma clw_pairing : forall udigit uspace script extra lmtp exts0 ops chunks st results,
+  forallb wf_reply script = true ->
+  Forall nonempty chunks -> (concat chunks = wire script ++ extra)%list ->
+  run udigit uspace ops (init lmtp exts0 chunks) = (st, results) ->
+  length (s_objs st) <= length script ->
+  let n := length (s_objs st) in
+  let f := n - length (s_queue st) in
+  flat_map result_ids results = seq 0 n /\
+  Forall result_ok results /\
+  s_queue st = seq f (n - f) /\
+  forall j, j < n ->
+    o_r (nth j (s_objs st) dummy_obj) =
+      if j <? f then filled udigit uspace (o_kind (nth j (s_objs st) dummy_obj)) (nth j script dflt)
+      else unfilled (o_kind (nth j (s_objs st) dummy_obj)).
+Proof. intros. eapply cl_pairing; try eassumption. apply cl_wf_all_ok. assumption. Qed.
+
+Lemma clw_no_overread : forall udigit uspace script extra lmtp exts0 ops chunks st results,
+  forallb wf_reply script = true ->
+  Forall nonempty chunks -> (concat chunks = wire script ++ extra)%list ->
+  run udigit uspace ops (init lmtp exts0 chunks) = (st, results) ->
+  length (s_objs st) <= length script ->
+  (s_rbuf st ++ concat (s_chunks st) =
+     wire (skipn (length (s_objs st) - length (s_queue st)) script) ++ extra)%list /\
+  Forall nonempty (s_chunks st) /\ s_dead st = false.
+Proof. intros. eapply cl_no_overread; try eassumption. apply cl_wf_all_ok. assumption. Qed.
+
+Lemma clw_lmtp_pairing : forall udigit uspace script extra exts0 ops chunks st results o st' res,
+  forallb wf_reply script = true ->
+  Forall nonempty chunks -> (concat chunks = wire script ++ extra)%list ->
+  run udigit uspace ops (init true exts0 chunks) = (st, results) ->
+  (o = OSendEmpty \/ exists payload, o = OSendData payload) ->
+  step udigit uspace o st = (st', res) ->
+  length (s_objs st') <= length script ->
+  let n := length (s_objs st) in
+  let acc := filter (fun p => class2 (fst (nth (snd p) script dflt))) (s_rcpttos st) in
+  res = RPairs (number n (map fst acc)) /\
+  length (s_objs st') = n + length acc /\
+  s_rcpttos st' = []%list /\
+  StronglySorted lt (map snd (s_rcpttos st)) /\
+  Forall (fun p => from_call ops results p /\ snd p < n /\
+                   o_cmd (nth (snd p) (s_objs st) dummy_obj) = bs "RCPT") (s_rcpttos st).
+Proof. intros. eapply cl_lmtp_pairing; try eassumption. apply cl_wf_all_ok. assumption. Qed.
+
+Lemma clw_raise_is_noop : forall udigit uspace script extra lmtp exts0 ops chunks st results o st' e,
+  forallb wf_reply script = true ->
+  Forall nonempty chunks -> (concat chunks = wire script ++ extra)%list ->
+  run udigit uspace ops (init lmtp exts0 chunks) = (st, results) ->
+  step udigit uspace o st = (st', RExn e) ->
+  length (s_objs st') <= length script ->
+  st' = st /\ (e = XEncode \/ e = XNotImpl).
+Proof. intros. eapply cl_raise_is_noop; try eassumption. apply cl_wf_all_ok. assumption. Qed.
+
+(* ------------------------------------------------------------------ *)
+(* the hypotheses of the theorems are satisfiable, on a non-trivial case:
+   banner, EHLO advertising PIPELINING, MAIL + two RCPT pipelined (the second
+   address is not encodable and raises before anything is queued), DATA flushes;
+   a five-line multi-reply script delivered byte by byte plus an unsolicited
+   extra reply that must stay unread. *)
+Definition ex_udigit (c : N) : bool := ((48 <=? c) && (c <=? 57))%N.
+Definition ex_uspace (c : N) : bool := (c =? 32)%N.
+Definition ex_script : list sreply :=
+  [(bs "220", [bs "mx ESMTP"]);
+   (bs "250", [bs "mx greets you"; bs "PIPELINING"; bs "8BITMIME"]);
+   (bs "250", [bs "2.1.0 sender ok"]);
+   (bs "550", [bs "5.1.1 no such"; bs "user"]);
+   (bs "354", [bs "go ahead"])].
+Definition ex_extra : bytes := bs "250 unsolicited".
+Definition ex_chunks : list bytes := map (fun b => [b]) (wire ex_script ++ ex_extra).
+Definition ex_ops : list op :=
+  [OBanner; OEhlo (bs "client"); OMail (bs "a@b") None None; ORcpt (bs "r1@c");
+   ORcpt [233%N; 64%N; 120%N]; OData].
+
+Example cl_example_hypotheses :
+  forallb wf_reply ex_script = true /\
+  forallb (fun c => match c with [] => false | _ => true end) ex_chunks = true /\
+  concat ex_chunks = (wire ex_script ++ ex_extra)%list /\
+  let '(st, results) := run ex_udigit ex_uspace ex_ops (init false [] ex_chunks) in
+  results = [RObj 0; RObj 1; RObj 2; RObj 3; RExn XEncode; RObj 4]%nat /\
+  (length (s_objs st) <= length ex_script)%nat /\
+  s_queue st = [] /\ s_rbuf st = [] /\ concat (s_chunks st) = ex_extra /\
+  map (fun o => (r_code (o_r o), get_message (o_r o))) (s_objs st) =
+    [(bs "220", bs "mx ESMTP"); (bs "250", bs "mx greets you"); (bs "250", bs "2.1.0 sender ok");
+     (bs "550", (bs "5.1.1 no such" ++ [13; 10]%N ++ bs "user")%list); (bs "354", bs "go ahead")].
+Proof. vm_compute. repeat split; reflexivity. Qed.
+
+(* LMTP: three recipients, the second rejected; end-of-data replies pair with the 1st and 3rd *)
+Definition ex_lscript : list sreply :=
+  [(bs "250", [bs "lmtp"; bs "PIPELINING"]); (bs "250", [bs "ok"]);
+   (bs "250", [bs "r1 ok"]); (bs "550", [bs "r2 no"]); (bs "250", [bs "r3 ok"]);
+   (bs "354", [bs "go"]); (bs "250", [bs "delivered r1"]); (bs "452", [bs "r3 over quota"])].
+Definition ex_lops : list op :=
+  [OLhlo (bs "client"); OMail (bs "a@b") None None; ORcpt (bs "r1"); ORcpt (bs "r2"); ORcpt (bs "r3"); OData].
+
+Example cl_example_lmtp :
+  forallb wf_reply ex_lscript = true /\
+  let '(st, results) := run ex_udigit ex_uspace ex_lops (init true [] [wire ex_lscript]) in
+  let '(st', res) := step ex_udigit ex_uspace OSendEmpty st in
+  (length (s_objs st') <= length ex_lscript)%nat /\
+  s_rcpttos st = [(bs "r1", 2); (bs "r2", 3); (bs "r3", 4)]%nat /\
+  res = RPairs [(bs "r1", 6); (bs "r3", 7)]%nat.
+Proof. vm_compute. repeat split; reflexivity. Qed.
+
+(* hypotheses of C10_reply_consumed_exactly on a concrete multi-line reply cut mid-line,
+   part of it already buffered *)
+Example cl_example_reply :
+  let code := bs "250" in let lines := [bs "first"; bs "second"] in
+  forallb is_digit code = true /\ forallb no_lf lines = true /\
+  (bs "250-fi" ++ concat [bs "rst"; [13; 10]%N; bs "250 second"; [13; 10; 50; 53]%N])%list =
+    (emit_lines code lines ++ bs "25")%list /\
+  recv_reply (bs "250-fi") [bs "rst"; [13; 10]%N; bs "250 second"; [13; 10; 50; 53]%N] =
+    ROk code (join CRLF lines) (bs "25") [].
+Proof. vm_compute. repeat split; reflexivity. Qed.
+
+(* ------------------------------------------------------------------ *)
+(* undecodable replies.  Hypotheses of C10_pairing_with_bad_replies on a concrete case:
+   the reply to the first RCPT is ISO-8859-1 ("550 Empf\xe4nger unbekannt"); without
+   PIPELINING rcptto() raises BadReply, the conversation continues and every later
+   Reply holds its own reply; the bad reply's slot (object 3) stays empty. *)
+Definition ex_bscript : list sreply :=
+  [(bs "220", [bs "mx"]); (bs "250", [bs "mx"; bs "8BITMIME"]); (bs "250", [bs "ok"]);
+   (bs "550", [(bs "Empf" ++ [228%N] ++ bs "nger unbekannt")%list]);
+   (bs "250", [bs "r2 ok"]); (bs "354", [bs "go"]); (bs "250", [bs "queued"]); (bs "221", [bs "bye"])].
+Definition ex_bops : list op :=
+  [OBanner; OEhlo (bs "client"); OMail (bs "a@b") None None; ORcpt (bs "r1"); ORcpt (bs "r2");
+   OData; OSendEmpty; OQuit].
+
+Example cl_example_bad_reply :
+  forallb script_ok ex_bscript = true /\ forallb wf_reply ex_bscript = false /\
+  let '(st, results) := run ex_udigit ex_uspace ex_bops (init false [] (map (fun b => [b]) (wire ex_bscript))) in
+  results = [RObj 0; RObj 1; RObj 2; RExn XBadReply; RObj 4; RObj 5; RObj 6; RObj 7]%nat /\
+  (length (s_objs st) <= length ex_bscript)%nat /\ s_queue st = [] /\ s_rbuf st = [] /\ s_chunks st = [] /\
+  map (fun o => r_code (o_r o)) (s_objs st) =
+    [bs "220"; bs "250"; bs "250"; []; bs "250"; bs "354"; bs "250"; bs "221"].
+Proof. vm_compute. repeat split; reflexivity. Qed.
+
+(* The known finding behind C10_lmtp_unanswered_rcpt_refuted: LMTP with PIPELINING, the reply
+   to the second RCPT is undecodable; data() raises the BadReply; send_empty_data() then dies
+   with AttributeError on that recipient AFTER it has queued a slot for the first one: a slot
+   without a command (nothing was put in the send buffer), rcpttos not cleared. *)
+Definition ex_fscript : list sreply :=
+  [(bs "250", [bs "lmtp"; bs "PIPELINING"]); (bs "250", [bs "ok"]); (bs "250", [bs "r1 ok"]);
+   (bs "550", [[228%N]]); (bs "354", [bs "go"]); (bs "250", [bs "x"]); (bs "250", [bs "y"])].
+Definition ex_fops : list op :=
+  [OLhlo (bs "client"); OMail (bs "a@b") None None; ORcpt (bs "r1"); ORcpt (bs "r2"); OData].
+
+Lemma cl_lmtp_unanswered_rcpt_witness :
+  forallb script_ok ex_fscript = true /\
+  let '(st, results) := run ex_udigit ex_uspace ex_fops (init true [] [wire ex_fscript]) in
+  let '(st', res) := step ex_udigit ex_uspace OSendEmpty st in
+  (length (s_objs st') <= length ex_fscript)%nat /\
+  res = RExn XAttr /\
+  s_queue st' = [5]%nat /\ o_cmd (nth 5 (s_objs st') dummy_obj) = SEND_DATA /\
+  s_sendbuf st' = [] /\ s_sent st' = s_sent st /\ s_rcpttos st' = s_rcpttos st /\ s_rcpttos st' <> [].
+Proof.
+  vm_compute. repeat split; try reflexivity; try (repeat constructor). intros H; discriminate H.
+Qed.
